@@ -276,19 +276,26 @@ Proof.
   destruct (step_accept _ _ _ _ Hb2 Hs2) as (q2 & _ & -> & _). lia.
 Qed.
 
-(* never below the pending nonce reported for that request *)
-Lemma ge_pending ops p r n :
-  wf_ops ops -> In (TSend (Some p) r) (run init ops) -> reached r = Some n -> p <= n.
+(* never below the pending nonce reported for that request: per call, for any state (no premise) *)
+Lemma ge_pending_call ctr cf rq a c r n p :
+  send ctr cf rq a = (c, r) -> pending a = Some p -> reached r = Some n -> p <= n.
 Proof.
-  intros Hw Hin Hr. apply in_split in Hin. destruct Hin as (pre & post & H).
+  unfold send, send_with. intros H Hp Hr. rewrite Hp in H. rewrite get_nonce_max in H.
+  destruct (allow_nonce cf _); cbn [negb] in H; [|injection H as _ <-; discriminate].
+  destruct (new_tx_ok rq a); cbn [negb] in H; [|injection H as _ <-; discriminate].
+  destruct (sign_ok a); cbn [negb] in H; [|injection H as _ <-; discriminate].
+  destruct (submit_ok a); cbn [negb] in H; injection H as _ <-; cbn [reached] in Hr; injection Hr as <-; lia.
+Qed.
+
+Lemma ge_pending ops p r n :
+  In (TSend (Some p) r) (run init ops) -> reached r = Some n -> p <= n.
+Proof.
+  intros Hin Hr. apply in_split in Hin. destruct Hin as (pre & post & H).
   apply run_decompose in H. destruct H as (o1 & o & o2 & -> & _ & Hs & _).
-  apply wf_ops_app in Hw. destruct Hw as [Hw1 _].
-  pose proof (final_bnd _ _ Hw1 bnd_init) as Hb.
   unfold step, step_with in Hs. destruct o as [rq a|v|]; [|discriminate|discriminate].
   destruct (send_with get_nonce (ctr (final init o1)) (conf (final init o1)) rq a) as [c r'] eqn:E.
   cbn [snd] in Hs. injection Hs as Hp ->.
-  apply (send_spec _ _ _ _ _ _ Hb) in E. rewrite Hp in E.
-  destruct r as [|m|m]; cbn [reached] in Hr; [discriminate| |]; injection Hr as ->; lia.
+  exact (ge_pending_call _ _ _ _ _ _ _ _ E Hp Hr).
 Qed.
 
 (* exact value of the next accepted nonce after an accepted one: previous + 1, unless the node
@@ -517,6 +524,75 @@ Proof.
   apply (monotone_restart_from ops init true None pre p1 n1 _ n2 Hw bnd_init J_init Hok H).
   rewrite accepted_app. apply in_or_app. right. left. reflexivity.
 Qed.
+
+Definition all_ok_rq (p : option N) : op :=
+  Send {| gas_given := true; price_given := true |}
+       {| pending := p; est_ok := true; tip_ok := true; price_ok := true; sign_ok := true; submit_ok := true |}.
+
+(* while a client lives its counter is at or above every pending answer it has received *)
+Lemma life_ge_pendings ops : forall s,
+  wf_ops ops -> bnd s -> no_restart (run s ops) ->
+  forall q, In q (pendings (run s ops)) -> q <= ctr (final s ops).
+Proof.
+  induction ops as [|o ops IH]; intros s Hw Hb Hn q Hin; [destruct Hin|].
+  rewrite run_cons in Hn, Hin. apply no_restart_cons in Hn. destruct Hn as [He Hn].
+  inversion Hw as [|? ? Hwo Hwr]; subst.
+  pose proof (step_bnd s o Hwo Hb) as Hb'. rewrite final_cons.
+  pose proof (life_monotone _ _ Hwr Hb' Hn) as [Hmono _].
+  assert (Hhead : forall q' r', (snd (step s o) = TSend (Some q') r') -> (q' <= ctr (fst (step s o)))).
+  { intros q' r'. unfold step, step_with. destruct o as [rq a|v|]; try discriminate.
+    destruct (send_with get_nonce (ctr s) (conf s) rq a) as [c r] eqn:E. cbn [fst snd ctr].
+    intros [= Hp _]. apply (send_spec _ _ _ _ _ _ Hb) in E. rewrite Hp in E. destruct r as [|m|m]; lia. }
+  destruct (snd (step s o)) as [[q'|] r|v|] eqn:Es; cbn [pendings] in Hin.
+  - destruct Hin as [<-|Hin].
+    + specialize (Hhead q' r eq_refl). lia.
+    + exact (IH _ Hwr Hb' Hn q Hin).
+  - exact (IH _ Hwr Hb' Hn q Hin).
+  - exact (IH _ Hwr Hb' Hn q Hin).
+  - exact (IH _ Hwr Hb' Hn q Hin).
+Qed.
+
+(* Across a restart with a premise on the node's answers only: as soon as one pending answer given to
+   the new client (up to and including the one for this request) is above a nonce accepted before the
+   restart, everything the new client gets accepted from then on is above that nonce. *)
+Lemma restart_fresh_answer ops pre mid p2 n2 post n1 q :
+  wf_ops ops ->
+  run init ops = pre ++ TRestart :: mid ++ TSend p2 (Accepted n2) :: post ->
+  no_restart mid ->
+  In q (pendings (mid ++ [TSend p2 (Accepted n2)])) -> n1 < q -> n1 < n2.
+Proof.
+  intros Hw H Hn Hq Hlt.
+  apply run_decompose in H. destruct H as (o1 & o & o2 & -> & Hr1 & Hs1 & Hp1).
+  apply wf_ops_app in Hw. destruct Hw as [Hw1 Hw]. inversion Hw as [|? ? Hwo Hw2]; subst.
+  assert (Hi : fst (step (final init o1) o) = init).
+  { unfold step, step_with in *. destruct o as [rq a|v|]; [|discriminate|reflexivity].
+    destruct (send_with get_nonce (ctr (final init o1)) (conf (final init o1)) rq a). discriminate. }
+  rewrite Hi in Hp1.
+  apply run_decompose in Hp1. destruct Hp1 as (o3 & o' & o4 & -> & Hr2 & Hs2 & Hp2).
+  apply wf_ops_app in Hw2. destruct Hw2 as [Hw3 Hw4]. subst mid.
+  pose proof (final_bnd _ _ Hw3 bnd_init) as Hb2.
+  destruct (step_accept _ _ _ _ Hb2 Hs2) as (q2 & -> & Hn2 & _).
+  rewrite pendings_app in Hq. apply in_app_or in Hq. destruct Hq as [Hq|Hq].
+  - pose proof (life_ge_pendings _ _ Hw3 bnd_init Hn q Hq). lia.
+  - cbn [pendings] in Hq. destruct Hq as [<-|[]]. lia.
+Qed.
+
+(* Without any such premise the cross-restart clause is false for this code (and for every client that
+   keeps no persistent state): the restarted client is given a stale first answer and reuses nonce 0. *)
+Lemma restart_without_premise_refuted :
+  exists ops pre p1 n1 mid p2 n2 post,
+    wf_ops ops /\
+    run init ops = pre ++ TSend p1 (Accepted n1) :: mid ++ TSend p2 (Accepted n2) :: post /\
+    sync_ok (run init ops) = false /\ ~ n1 < n2.
+Proof.
+  exists [all_ok_rq (Some 0); Restart; all_ok_rq (Some 0)], [], (Some 0), 0, [TRestart], (Some 0), 0, [].
+  split; [repeat constructor|]. split; [vm_compute; reflexivity|]. split; [vm_compute; reflexivity|lia].
+Qed.
+
+(* The atomicity of one [send] step (the history is a sequence of whole Send calls) rests on the client
+   mutex: Send takes c.mtx and releases it by defer -- regenerated from evmclient.go on every run. *)
+Lemma send_serialised_now : c08_send_locks = true /\ c08_send_unlocks = true.
+Proof. split; reflexivity. Qed.
 
 (* ------------------------------------------------------------------------------------ *)
 (* the code before commit a9d18e4 does not have the property                              *)
